@@ -25,7 +25,11 @@ from pathlib import Path
 
 from common import REPO, VERIF, Check, use_repo
 
+import sys  # noqa: E402
+
+sys.path.insert(0, str(VERIF / "harness" / "translators"))
 import c19_space as S  # noqa: E402
+import tr_cli  # noqa: E402
 
 LEVEL = "exploration"
 EXTRA_NOTES = set()
@@ -328,11 +332,16 @@ def run_config(C, cfg, data):
     return oc, [(norm_sig(s), w) for s, w in fails], recs, extra
 
 
+extra_emitted = {"e": None}
+
+
 def _run_config(C, cfg, data):
     argv = S.to_argv(cfg, data)
+    extra_emitted["e"] = None
     try:
         with contextlib.redirect_stdout(io.StringIO()):
             emitted, text, recs, with_constraints = C.run_cli(argv)
+        extra_emitted["e"] = emitted
     except C.CliExit as e:
         last = (e.stderr.strip().splitlines() or ["?"])[-1]
         msg = re.sub(r"^torchtree-cli( \w+)?: error: ", "", last)
@@ -416,7 +425,7 @@ def json_close(a, b, path=""):
     return None if a == b else f"{path}: {a!r} vs {b!r}"
 
 
-def lean_correspondence(ck, drv, recs, cfg):
+def lean_correspondence(ck, drv, recs, cfg, emitted=None):
     from c13_wire import decs, encs
 
     for r in recs:
@@ -431,6 +440,17 @@ def lean_correspondence(ck, drv, recs, cfg):
             if got != want:
                 ck.mismatch("create_jacobians differs from model", {"cfg": cfg, "impl": want, "model": got})
             ck.bucket("corr/create_jacobians")
+            # the list finally handed to joint.jacobian (post-processing included)
+            if emitted is not None:
+                jj = next((e for e in emitted if isinstance(e, dict) and e.get("id") == "joint.jacobian"), None)
+                flags = "".join("1" if b else "0" for b in (
+                    cfg.get("clock") is not None, cfg.get("heights") == "ratio",
+                    cfg.get("treeprior") in ("skyride",) + S.COALESCENT_GRID, cfg.get("init") == "coalescent_non_centered"))
+                rep2 = drv.ask(f"final {r['module']} {flags} " + encs(r["before"]))
+                if jj is None or not rep2.startswith("ok ") or decs(rep2[3:]) != jj:
+                    ck.mismatch("joint.jacobian differs from model (post-processing of the Jacobian list)",
+                                {"cfg": cfg, "impl": jj, "model": rep2[:300]})
+                ck.bucket("corr/joint.jacobian")
         elif r["fn"] == "make_unconstrained":
             rep = drv.ask("unc " + encs(r["before"]))
             if not rep.startswith("ok "):
@@ -512,7 +532,11 @@ def run(ck: Check):
         "the numbers make_unconstrained writes are float32 torch results: compared with the Float64 model within 2e-6",
     ]
     ck.trusted += ["argparse", "torch.distributions transforms (inverse, log_abs_det_jacobian)", "the C13 loader model for what `loads` means"]
-    ok, broken = ck.lean_side({}, ["TTModel.C19_CLI", "TTProofs.Props.C19", "drv_c19"], "TTProofs/Props/C19.lean")
+    lean_src, tr_ok, tr_note = tr_cli.translate(REPO)
+    ck.extra["translator_note"] = tr_note
+    ok, broken = ck.lean_side({"TTGen/C19_Dispatch.lean": lean_src},
+                              ["TTModel.C19_CLI", "TTGen.C19_Dispatch", "TTProofs.Props.C19", "drv_c19"],
+                              "TTProofs/Props/C19.lean")
     drv = None
     try:
         drv = ck.driver("drv_c19")
@@ -535,7 +559,7 @@ def run(ck: Check):
                 found.setdefault(s, []).append((cfg, w))  # signatures are already normalised by run_config
             if drv is not None and recs:
                 try:
-                    lean_correspondence(ck, drv, recs, cfg)
+                    lean_correspondence(ck, drv, recs, cfg, extra_emitted.get('e'))
                 except Exception as e:  # noqa: BLE001
                     ck.mismatch("correspondence raised", {"cfg": cfg, "exc": f"{type(e).__name__}: {e}"[:300]})
         ck.extra["failure_signatures"] = {s: len(v) for s, v in sorted(found.items())}
@@ -551,10 +575,12 @@ def run(ck: Check):
             ck.violation(sig, f"torchtree-cli {argv}: {what}",
                          {"config": small, "argv": argv, "occurrences": len(lst), "original_config": cfg,
                           "replay_cmd": "./check C19 --replay <this file>"})
-        if not found and (not ok or ck.mismatches):
+        if (not ok or ck.mismatches) and not ck.violations:
+            # nothing NEW was found on the implementation (known findings do not explain a broken proof/correspondence)
             ck.violation("cli:unproved", "C19 theorems or the model/implementation correspondence no longer check",
-                         {"broken_obligations": broken, "mismatches": ck.mismatches[:5]}, found_input=False)
-        elif found and (not ok or ck.mismatches):
+                         {"broken_obligations": broken, "mismatches": ck.mismatches[:5], "translator_note": tr_note},
+                         found_input=False)
+        elif not ok or ck.mismatches:
             ck.notes.append("Lean side / correspondence also broken: " + json.dumps({"broken": broken, "mismatches": ck.mismatches[:3]})[:600])
     finally:
         if drv is not None:
